@@ -7,7 +7,9 @@ A case is a JSON-able dict
      'tokens': [['r', ref_index, 'rel'|'abs', wrap] | ['l', literal_text], ...]  # arguments = ' '.join(rendered)
      'contents': {'<stage>/<name>/<file>': text},                                # non-default contents of :output files
      'streams': {'<stage>/<name>': [n, ...]},   # optional: the producer is REPEATING and has these archived stdout streams
-     'consumer_repeat': bool}                   # optional: the consumer is a repeating component (same-stage observer)
+     'consumer_repeat': bool,                   # optional: the consumer is a repeating component (same-stage observer)
+     'interpreter': 'bash',                     # optional: the consumer sets command.interpreter and no executable
+     'decl_via_variable': bool}                 # optional: producer names in `references:` are given through variables
 
 All consumers live in stage CONSUMER_STAGE (1); producers live in stage 0 or 1 (so equal names across stages occur and
 both spellings exist for same-stage producers); stage None denotes a direct reference to a reserved folder (`data`).
@@ -386,6 +388,51 @@ def fam_direct_suffix(names, family='direct-suffix'):
 
 
 
+WHITESPACE = ['', '\t', '\n', '  ', '\t\n', ' \n ']      # as literal tokens: joined with single blanks around them
+
+
+def fam_whitespace(family='whitespace'):
+    """literal text other than single blanks between / around the references (double and multiple blanks, TAB, line
+    feed, leading and trailing blanks), for an ordinary consumer and for a consumer that sets `command.interpreter:
+    bash` without an executable (its written arguments are `<executable> <arguments>`)."""
+    p, q = (CONSUMER_STAGE, 'A'), (0, 'BA')
+    for interp in (False, True):
+        for w in WHITESPACE:
+            for sp in psp(p):
+                for mp in ('ref', 'out'):
+                    rp, rq = mkref(p, mp, sp), mkref(q, 'ref', 'abs')
+                    pats = [([rp, rq], [['r', 0, sp, 'bare'], ['l', w], ['r', 1, 'abs', 'key']]),
+                            ([rq, rp], [['l', 'echo'], ['l', w], ['r', 1, sp, 'bare'], ['l', w], ['r', 0, 'abs', 'bare']]),
+                            ([rp], [['r', 0, sp, 'bare'], ['l', w]]),
+                            ([rp], [['l', w], ['r', 0, sp, 'key'], ['l', 'end']])]
+                    for refs, toks in pats:
+                        c = case(family, refs, toks)
+                        if interp:
+                            c['interpreter'] = 'bash'
+                        yield c
+
+
+def fam_relative_declared(names, family='relative-declared'):
+    """declared references that reach the graph in their RELATIVE spelling because the producer is named through a
+    component variable (`references: ['%(p0)s:ref']`); alone and next to the same-named producer of the other stage."""
+    for n in names:
+        p, p0 = (CONSUMER_STAGE, n), (0, n)
+        for m in ('ref', 'out', 'fref', 'sout'):
+            for declsp in ('rel', 'abs'):
+                for sp in ('rel', 'abs'):
+                    c = case(family, [mkref(p, m, declsp)], [['l', '-i'], ['r', 0, sp, 'key']])
+                    c['decl_via_variable'] = True
+                    yield c
+        for order in ((0, 1), (1, 0)):
+            for sp in ('rel', 'abs'):
+                base = [mkref(p, 'ref', 'rel'), mkref(p0, 'ref', 'abs')]
+                refs = [base[i] for i in order]
+                c = case(family, refs, [['r', order.index(0), sp, 'bare'], ['r', order.index(1), 'abs', 'key']])
+                c['decl_via_variable'] = True
+                yield c
+
+
+
 # --------------------------------------------------------------------------------------- families (thorough extension)
 def fam_pair_full(names, family='pair-full'):
     """pairs: independent wrappers (3x3), both token orders, declared spelling = used spelling; plus declared spelling
@@ -454,7 +501,8 @@ def core_cases():
     # triples in the fixed core leave out the neutral name `x` (it is part of every other family and of the
     # thorough triples)
     return itertools.chain(fam_pair(n), fam_triple([x for x in n if x != 'x']), fam_mixed(n), fam_lookalike(n),
-                           fam_literal(n), fam_methods(n), fam_direct(), fam_direct_suffix(n), fam_special_values(), fam_repeating())
+                           fam_literal(n), fam_methods(n), fam_direct(), fam_direct_suffix(n), fam_special_values(), fam_repeating(), fam_whitespace(),
+                           fam_relative_declared(n))
 
 
 def extension_cases():
@@ -470,6 +518,8 @@ def key_of(c):
     k = [c['refs'], c['tokens'], c['contents']]
     if c.get('streams') or c.get('consumer_repeat'):
         k += [c.get('streams', {}), bool(c.get('consumer_repeat'))]
+    if c.get('interpreter') or c.get('decl_via_variable'):
+        k += [c.get('interpreter'), bool(c.get('decl_via_variable'))]
     return canon(k)
 
 
